@@ -7,6 +7,7 @@ import (
 	"fmt"
 	"go/token"
 	"go/types"
+	"os"
 	"sort"
 	"strings"
 
@@ -379,6 +380,11 @@ func (eng *Engine) runScans(prop string) []*Oblig {
 							if ia, ok := x.Addr.(*ssa.IndexAddr); ok && derived[ia.X] {
 								bad = append(bad, eng.site(in)+" writes an element of "+sc.Args[0])
 							}
+						case *ssa.MapUpdate:
+							// (map-typed fields: an entry added or overwritten)
+							if derived[x.Map] {
+								bad = append(bad, eng.site(in)+" updates an entry of "+sc.Args[0])
+							}
 						case ssa.CallInstruction:
 							cc := x.Common()
 							name := ""
@@ -544,6 +550,91 @@ func (eng *Engine) runScans(prop string) []*Oblig {
 			o.Err = "structural obligation violated at: " + strings.Join(bad, "; ")
 		}
 		o.Src += fmt.Sprintf(" [%d sites]", covered)
+		out = append(out, o)
+	}
+	out = append(out, eng.stableScans(prop, fns)...)
+	return out
+}
+
+// stableScans: `stable T.f` lets callers keep what they know about field f across calls they know nothing about. That is an
+// assumption about every function of the repository, so it is checked here whenever no explicit writer scan covers the field:
+// outside initialisation — a store into an object the storing function itself allocated (composite literals, new) — nothing
+// in /repo writes the field or lets its address escape. The obligation belongs to every property that has a contract in the
+// declaring package.
+func (eng *Engine) stableScans(prop string, fns []*ssa.Function) []*Oblig {
+	covered := map[string]bool{}
+	for _, sc := range eng.specs.scans {
+		switch sc.Kind {
+		case "field-writers", "frozen-after-publish":
+			if len(sc.Args) > 0 {
+				o, f := eng.resolveTypeField(sc.Pkg, sc.Args[0])
+				covered[o+"."+f] = true
+			}
+		}
+	}
+	pkgHasProp := map[string]bool{}
+	for _, fc := range eng.specs.funcs {
+		if contractHasProp(fc, prop) {
+			pkgHasProp[fc.Pkg] = true
+		}
+	}
+	var out []*Oblig
+	for _, key := range sortedKeys(eng.specs.stable) {
+		i := strings.LastIndex(key, ".")
+		owner, field := key[:i], key[i+1:]
+		j := strings.LastIndex(owner, ".")
+		if j < 0 {
+			continue
+		}
+		pkg := owner[:j]
+		if !strings.HasPrefix(pkg, modPath) || (!pkgHasProp[pkg] && os.Getenv("GCV_ALL_STABLE") == "") || covered[key] || covered[owner+".*"] {
+			continue
+		}
+		var bad []string
+		sites := 0
+		for _, fn := range fns {
+			for _, b := range fn.Blocks {
+				for _, in := range b.Instrs {
+					fa, ok := in.(*ssa.FieldAddr)
+					if !ok || fa.Referrers() == nil {
+						continue
+					}
+					o, f := fieldAddrOwner(fa)
+					if o != owner || (field != "*" && f != field) {
+						continue
+					}
+					for _, r := range *fa.Referrers() {
+						switch x := r.(type) {
+						case *ssa.UnOp, *ssa.DebugRef:
+							continue
+						case *ssa.Store:
+							if x.Addr == ssa.Value(fa) {
+								sites++
+								if _, own := fa.X.(*ssa.Alloc); !own {
+									bad = append(bad, eng.site(r))
+								}
+								continue
+							}
+						case *ssa.FieldAddr, *ssa.IndexAddr:
+							continue // interior of a struct- or array-typed field: its own stores are looked at under that type
+						}
+						sites++
+						if _, own := fa.X.(*ssa.Alloc); !own {
+							bad = append(bad, eng.site(r)+" (address passed on)")
+						}
+					}
+				}
+			}
+		}
+		label := "stable:" + key[len(pkg)+1:]
+		o := &Oblig{Kind: "scan", Props: []string{prop}, Label: label, Fn: shortPkg(pkg), Result: "unsat", Solver: "ssa-scan",
+			Src: fmt.Sprintf("scan stable %s: written only while the object is being initialised by the function that allocated it [%d sites]", key[len(pkg)+1:], sites)}
+		o.ID = fmt.Sprintf("%s:%s:scan:%s", prop, shortPkg(pkg), label)
+		if len(bad) > 0 {
+			o.Result = "sat"
+			o.Model = "writes outside initialisation:\n  " + strings.Join(bad, "\n  ")
+			o.Err = "structural obligation violated at: " + strings.Join(bad, "; ")
+		}
 		out = append(out, o)
 	}
 	return out
